@@ -1,8 +1,8 @@
 package checks
 
 import (
-	"encoding/binary"
 	"bytes"
+	"encoding/binary"
 	"errors"
 	"fmt"
 	"reflect"
